@@ -272,7 +272,7 @@ def func_defs(draw, nstructs, allow_va=True, allow_fp=True, max_args=6):
     elif c <= 7 and nstructs:
         ret = ['s', draw(st.integers(0, nstructs - 1))]
     elif c == 8:
-        ptrs = [a for a in args if a[0] == 'p']
+        ptrs = [a for a in args if a[0] == 'p' and a[1][0] != 'a']     # (no functions returning pointers to arrays)
         if ptrs:
             ret = ['p', draw(st.sampled_from(ptrs))[1]]
         else:
